@@ -40,6 +40,46 @@ Extension for `CfwManager` (cfw_manager.py; run-time meaning in `Model/PyRtDict.
   coercions    a `T` where an `opt[T]` is expected is `some`, `None` where an `opt[..]` / "any" is expected is `none` (return
                values, attribute and item assignment).  There is no flow narrowing: a function that returns an `Optional` local
                after `if x is None: raise` is declared with an `opt[..]` result and the bridging theorem shows it is never `none`.
+
+Extension for the data-lifecycle code and `Graph` (run-time meaning in `Model/PyRtObj.lean`; specs in extractors/pytrans_life.py,
+pytrans_graph.py).  Everything here is only active for specs that ask for it (`methods`, `extern`, `obj_fields`, `narrow`,
+`exc_types`, `recursive`), so the older generated files do not change:
+  types        n-ary `tuple[A,B,C]` (right-nested Lean product); "queue" (a HANDLE of a `multiprocessing.Queue`, `Nat`), "qlist",
+               "qmsg" (`QMsg`), "qheap" / "sched" (world variables, below), "pdata" (`ComputeFramework.data`: None / key str /
+               table), "float" (opaque, `Unit`); `ModuleSpec.types` names structures of the prelude ("cfwobj" -> `CfwObj`), and
+               `obj_fields` lists their attributes (`cfw.uuid`).  `yield[T]` / `list[T]` are `List T`.
+  heap objects a compute-framework object is a VALUE; a local `x = d[k]` whose value is an object ALIASES the dict entry: after
+               every call that mutates `x` the translation re-stores it (`d := NDict.set d k x` - the entry keeps its place).
+               An object PARAMETER that is mutated is returned (as a mutated set was before).  Assumed: distinct keys hold
+               distinct objects.  `self.a.b` paths are fields of `self` when the spec lists them (`field_names` maps them to the
+               Lean structure; updates are nested `{ self with a := { self.a with b := … } }`).
+  world        state outside the Python objects - the flight store (`store`), the heap of queue contents (`qheap`), what another
+               process puts into a queue while the function runs (`sched`) - is a "world variable": a function that (or whose
+               callee) touches it takes it as a parameter and returns it when written.
+  calls        `ModuleSpec.methods`: a dotted call with a fixed run-time meaning (a `Method`: Lean function, receiver / argument
+               types, required keyword constants such as `block=False`, mutated receiver / arguments, world variables, oracles);
+               `ModuleSpec.extern`: a function translated in another module of the same generated file (called with its own
+               calling convention; what it mutates is re-bound at the call site: locals, fields of self, aliases).
+               Arguments are coerced (`T` to `Optional[T]`, None, a set used as a queue message and back).  A parameter omitted
+               by the caller is the default of the Python signature ONLY if that default's source text is the one in the spec.
+  expressions  `set()`, `{f(x) for x in xs}` (`PSet.ofList`), iteration over a dict (its keys), `d.values()`, `d.keys()`,
+               `d.popitem()` (LAST inserted), `d.get(k, (None, None, None))`, truthiness of a dict / list / queue object,
+               `x is True`, `x is None` on a value of a non-Optional type (False), attribute reads of objects.
+  statements   `del d[k]` (KeyError), `d[k] = v` on a local / parameter dict, `_` in tuple targets;
+               `yield e`: a GENERATOR is translated as "the list of everything it yields when drained, and the state afterwards";
+               `try: x = q.get(block=False) … except queue.Empty: …` (`exc_types`): the FIRST statement must be the call whose
+               `none` result stands for the exception and nothing else in the body may raise it (so no state change precedes the
+               raise); emitted as a `match` on the Optional result, and when the handler always leaves (`continue`) the rest of
+               the enclosing block moves into the `some` arm;
+               flow NARROWING (`narrow=True`): `if x is None: raise/return/continue` puts the rest of the block into the `some`
+               arm of a `match x`; `if x is not None:` / `if x:` (no else) narrow `x` in their body; a narrowed local is immutable;
+               a `for` over a dict / `.items()` whose body may change that dict is refused (Python: RuntimeError);
+               inside `try/except Exception` a monadic Method / translated call may now deliver a value (`x = f(…)`).
+  recursion    a function marked `recursive` takes `fuel` = the number of Python frames still available: its body is the
+               `fuel' + 1` arm of `match fuel`, a recursive call passes `fuel'`, and at fuel 0 it ends with `throw .recursion`
+               (RecursionError).  As for `while`: `.error .recursion` at every fuel means the Python call never returns normally.
+  exceptions   the state a RAISING call leaves behind (objects mutated before the raise) is not part of the translation's result;
+               bridging theorems relate the exception to the model's error outcome and the state only for normal returns.
 """
 from __future__ import annotations
 
@@ -82,15 +122,28 @@ class _LeanTy(dict):  # type: ignore[type-arg]
 
         if head == "opt" and len(args) == 1:
             return f"Option {par(args[0])}"
-        if head == "tuple" and len(args) == 2:
-            return f"({self[args[0]]} × {self[args[1]]})"
-        if head in ("dict", "items") and len(args) == 2 and args[0] in ("uuid", "sid"):
+        if head == "tuple" and len(args) >= 2:
+            return "(" + " × ".join(self[a] for a in args) + ")"
+        if head in ("dict", "items") and len(args) == 2 and args[0] in ("uuid", "sid", "nat"):
             return f"NDict {par(args[1])}"
+        if head == "ddict" and len(args) == 2 and args[0] in ("uuid", "nat") and args[1] in ("natlist", "set", "nat"):
+            return "NDict Nat" if args[1] == "nat" else "NDict (List Nat)"  # a defaultdict: reads insert (DDict / IDict)
+        if head == "dict" and len(args) == 2 and split_ty(args[0])[0] == "tuple":
+            return f"ADict {par(args[0])} {par(args[1])}"
+        if head in ("yield", "list") and len(args) == 1:
+            return f"List {par(args[0])}"
         raise Unsupported(f"type {ty}")
 
 
 NAT_LIKE = ("nat", "uuid", "sid", "objid")
-LEAN_TY = _LeanTy({"uuid": "Nat", "sid": "Nat", "objid": "Nat", "any": "Option Nat", "obj": "Unit", "dict": "PyDict", "pyval": "PyVal", "items": "PyDict", "strlist": "List String", "set": "PSet", "bool": "Bool", "nat": "Nat", "step": "PStep", "unit": "Unit", "boolorset": "BoolOrSet", "str": "String", "natlist": "List Nat"})
+
+
+def tuple_proj(n: int, i: int) -> str:
+    """projection of component i (0-based) of a right-nested Lean n-tuple"""
+    return ".2" * i + ".1" if i < n - 1 else ".2" * (n - 1)
+
+
+LEAN_TY = _LeanTy({"queue": "Nat", "qlist": "List Nat", "qmsg": "QMsg", "qheap": "QHeap", "sched": "List (List QMsg)", "pdata": "PData", "float": "Unit", "uuid": "Nat", "sid": "Nat", "objid": "Nat", "any": "Option Nat", "obj": "Unit", "dict": "PyDict", "pyval": "PyVal", "items": "PyDict", "strlist": "List String", "set": "PSet", "bool": "Bool", "nat": "Nat", "step": "PStep", "unit": "Unit", "boolorset": "BoolOrSet", "str": "String", "natlist": "List Nat"})
 SET_MUTATORS = {"update", "add", "difference_update", "discard", "remove", "clear"}
 LEAN_KEYWORDS = {"from", "to", "end", "at", "in", "do", "then", "else", "if", "let", "have", "show", "fun", "open", "local", "instance", "class", "structure", "def", "theorem", "where", "with", "match", "return", "for", "mut", "unless", "break", "continue", "try", "catch", "finally", "import", "namespace", "section", "variable", "universe", "export", "prefix", "infix", "notation", "macro", "syntax", "deriving", "extends", "abbrev", "example", "axiom", "private", "protected", "partial", "unsafe", "mutual", "inductive", "Type", "Prop", "Sort", "by", "using", "calc", "nomatch", "nofun", "forall", "exists"}
 
@@ -111,6 +164,35 @@ class Opaque:
 
 
 @dataclass
+class Method:
+    """A call that is not translated but has a fixed run-time meaning: a Lean function of the run-time library (or of the spec's
+    prelude).  `lean recv? args… world…` returns - inside `Except PyExc` when `monadic` - the tuple `(result?, recv'?, world'…)`
+    (`result` when `ret` is not "unit", `recv'` when `mutates_recv`, one component per mutated argument, one per WRITTEN world variable)."""
+
+    lean: str
+    recv: Optional[str] = None  # spec type of the receiver; None: a plain function (`FlightServer.drop_tables`)
+    args: List[str] = field(default_factory=list)  # spec types of the positional arguments
+    ret: str = "unit"
+    monadic: bool = False
+    mutates_recv: bool = False
+    mutates_args: List[int] = field(default_factory=list)  # indices of arguments whose object the call mutates: returned after `recv'`
+    world: List[Tuple[str, str, bool]] = field(default_factory=list)  # (world variable, spec type, written?) passed after the arguments
+    kwargs: Dict[str, Any] = field(default_factory=dict)  # keyword arguments the call must carry, with their constant values
+    none_is: Optional[str] = None  # `ret` is opt[..] and `none` stands for this exception (the Python call raises it); see typed try/except
+    oracles: List[Tuple[str, str]] = field(default_factory=list)  # oracle parameters (name, Lean type) appended after the world variables
+
+
+@dataclass
+class Extern:
+    """A call of a function translated in ANOTHER module (an already-run ModuleTranslator): `recv` is the Python expression whose
+    value is the callee's `self` (None: the call's own receiver `a.b` of `a.b.f(...)`)."""
+
+    mod: Any  # ModuleTranslator
+    fn: str
+    recv: Optional[str] = None
+
+
+@dataclass
 class FnSpec:
     py_name: str
     params: Dict[str, str]  # python parameter name -> type (in order, without self)
@@ -124,6 +206,9 @@ class FnSpec:
     continue_is_return: bool = False  # a slice taken from a loop body: `continue` ends the slice
     extra_params: List[Tuple[str, str]] = field(default_factory=list)  # further parameters (name, Lean type), e.g. predicates used by isinstance_map
     doc: str = ""
+    defaults: Dict[str, Tuple[str, str]] = field(default_factory=dict)  # parameter -> (source text of its Python default, Lean text used when a caller omits it)
+    local_types: Dict[str, str] = field(default_factory=dict)  # locals created by `defaultdict(...)`: name -> type (the key type is not in the source)
+    recursive: bool = False  # the function calls itself: it takes `fuel` = remaining Python frames (see the docstring)
 
 
 @dataclass
@@ -145,6 +230,29 @@ class ModuleSpec:
     imports: List[str] = field(default_factory=lambda: ["MlodaVerif.Model.PyRt"])
     opens: List[str] = field(default_factory=lambda: ["PyRt"])
     fstring_text: bool = False  # f-strings are rendered as their constant parts with `{}` holes instead of the token "<f-string>"
+    methods: Dict[str, Method] = field(default_factory=dict)  # "command_queue.put" -> Method (keyed like `opaque` by the dotted call)
+    extern: Dict[str, Extern] = field(default_factory=dict)  # "self.data_lifecycle_manager.drop_cfw_data" -> Extern
+    types: Dict[str, str] = field(default_factory=dict)  # further spec types -> Lean type (structures of the prelude), e.g. "cfwobj" -> "CfwObj"
+    obj_fields: Dict[str, Dict[str, str]] = field(default_factory=dict)  # object type -> attribute -> type (attribute reads `cfw.uuid`)
+    field_names: Dict[str, str] = field(default_factory=dict)  # python path of a self field "executor.cfw_collection" -> Lean path "cfw_collection"
+    narrow: bool = False  # flow narrowing of Optional locals (`if x is None: raise/return`, `if x is not None:`, `if x:`), see the docstring
+    exc_types: Dict[str, str] = field(default_factory=dict)  # "queue.Empty" -> the `none_is` tag of the Method whose failure it is
+
+
+def paren(t: str) -> str:
+    """`t` as an argument of an application"""
+    if " " not in t:
+        return t
+    if t.startswith("("):
+        depth = 0
+        for i, ch in enumerate(t):
+            depth += ch == "("
+            depth -= ch == ")"
+            if depth == 0:
+                if i == len(t) - 1:
+                    return t
+                break
+    return f"({t})"
 
 
 def lname(n: str) -> str:
@@ -180,11 +288,100 @@ class FnTranslator:
         self.lines: List[str] = []
         self.needs_fuel = False  # the function (or a translated callee) contains a `while`: extra parameter `fuel`
         self.while_flags: List[Optional[str]] = []  # innermost last: flag variable of a `while`, None for a `for`
+        self.rename: Dict[str, str] = {}  # python local -> Lean name while it is flow-narrowed (an immutable binder of a `match` arm)
+        self.alias: Dict[str, Tuple[ast.expr, ast.expr]] = {}  # local `x = d[k]` holding a heap object: (d, k); a mutation of x is written back
+        self.touches: set = set()  # defaultdict fields of self that a read may grow (here or in a callee)
+        self.writes: set = set()  # fields of self written otherwise (item assignment, del, append / add on an item, attribute assignment)
+        self.is_gen = False  # the function is a generator: `yield e` appends to `yielded`, which is what is returned
+        for t, lt in self.ms.types.items():
+            LEAN_TY[t] = lt
+
+    # ---------------------------------------------------------------- names, fields, assignment targets
+    def ln(self, n: str) -> str:
+        return self.rename.get(n) or lname(n)
+
+    def sfield(self, d: Optional[str]) -> Optional[Tuple[str, str]]:
+        """`self.a.b` -> (Lean text of the field, its type) when the spec lists the path `a.b` as a field of `self`"""
+        if not d or not d.startswith("self.") or d[5:] not in self.ms.self_fields:
+            return None
+        lp = self.ms.field_names.get(d[5:], d[5:])
+        return "self." + ".".join(lname(x) for x in lp.split(".")), self.ms.self_fields[d[5:]]
+
+    def sfield_set(self, d: str, value: str) -> str:
+        """the statement that stores `value` into the field `self.a.b` (nested structure update)"""
+        lp = [lname(x) for x in self.ms.field_names.get(d[5:], d[5:]).split(".")]
+        for i in range(len(lp) - 1, -1, -1):
+            owner = ".".join(["self"] + lp[:i])
+            value = f"{{ {owner} with {lp[i]} := {value} }}"
+        return f"self := {value}"
+
+    def is_objty(self, ty: str) -> bool:
+        return ty in self.ms.obj_fields
+
+    def writeback(self, n: str) -> List[str]:
+        """`n` is a local alias of the heap object `d[k]`: after a mutation of the object the dict entry is the new value"""
+        if n not in self.alias:
+            return []
+        d_ast, k_ast = self.alias[n]
+        pre: List[str] = []
+        dt, dty = self.expr(d_ast, pre)
+        kt, _ = self.expr(k_ast, pre)
+        if pre:
+            raise Unsupported(f"write-back of the alias {n}")
+        return self.assign_to(d_ast, f"NDict.set {dt} {kt} {self.ln(n)}")
+
+    def assign_to(self, tgt: ast.expr, value: str) -> List[str]:
+        """statements that make the object denoted by `tgt` (a local / parameter or a field of self) the new value `value`"""
+        d = dotted(tgt)
+        if isinstance(tgt, ast.Name) and d in self.env:
+            if d in self.rename:
+                raise Unsupported(f"mutation of the flow-narrowed local {d}")
+            return [f"{lname(d)} := {value}"] + self.writeback(d)
+        if self.sfield(d) is not None:
+            return [self.sfield_set(d, value)]  # type: ignore[arg-type]
+        if d in self.ms.attr_vars:
+            return [f"{lname(self.ms.attr_vars[d][0])} := {value}"]
+        raise Unsupported(f"the callee mutates {ast.unparse(tgt)}, which is neither a local nor a field of self")
 
     # ---------------------------------------------------------------- analysis
     def analyse(self, stmts: List[ast.stmt]) -> None:
         self.attr_params: List[str] = []
+        if self.spec.recursive:
+            self.needs_fuel = True
+        # locals that alias a heap object stored in a dict (`x = d[k]`): a mutation of x mutates d
+        aliases: Dict[str, ast.expr] = {}
         for node in ast.walk(ast.Module(body=stmts, type_ignores=[])):
+            if isinstance(node, ast.Assign) and len(node.targets) == 1 and isinstance(node.targets[0], ast.Name) and isinstance(node.value, ast.Subscript):
+                aliases[node.targets[0].id] = node.value.value
+        for node in ast.walk(ast.Module(body=stmts, type_ignores=[])):
+            if isinstance(node, (ast.Yield, ast.YieldFrom)):
+                self.is_gen = True
+            if isinstance(node, ast.Subscript) and isinstance(node.ctx, ast.Load):
+                sf0 = self.sfield(dotted(node.value))
+                if sf0 is not None and split_ty(sf0[1])[0] == "ddict":
+                    self.self_mut = True  # a defaultdict read may insert the key
+                    self.touches.add(dotted(node.value))
+            if isinstance(node, ast.Call) and isinstance(node.func, ast.Attribute) and node.func.attr in ("append", "add") and isinstance(node.func.value, ast.Subscript):
+                self.note_mutation(node.func.value.value, aliases)
+                if self.sfield(dotted(node.func.value.value)) is not None:
+                    self.writes.add(dotted(node.func.value.value))
+            if isinstance(node, ast.Call) and isinstance(node.func, ast.Attribute) and node.func.attr == "append" and not isinstance(node.func.value, ast.Subscript):
+                self.note_mutation(node.func.value, aliases)
+                if self.sfield(dotted(node.func.value)) is not None:
+                    self.writes.add(dotted(node.func.value))
+            if isinstance(node, ast.AugAssign) and isinstance(node.target, ast.Subscript):
+                self.note_mutation(node.target.value, aliases)
+                if self.sfield(dotted(node.target.value)) is not None:
+                    self.writes.add(dotted(node.target.value))
+            if isinstance(node, (ast.Assign, ast.AnnAssign, ast.Delete)):
+                for tg in (node.targets if not isinstance(node, ast.AnnAssign) else [node.target]):
+                    base = tg.value if isinstance(tg, ast.Subscript) else tg
+                    if self.sfield(dotted(base)) is not None:
+                        self.writes.add(dotted(base))
+            if isinstance(node, ast.Delete):
+                for tg in node.targets:
+                    if isinstance(tg, ast.Subscript):
+                        self.note_mutation(tg.value, aliases)
             if isinstance(node, ast.Attribute) and dotted(node) in self.ms.attr_vars:
                 vn, vt = self.ms.attr_vars[dotted(node)]
                 if vn not in self.env:
@@ -193,6 +390,8 @@ class FnTranslator:
                     self.attr_params.append(vn)
                 if isinstance(node.ctx, ast.Store) and vn not in self.attr_written:
                     self.attr_written.append(vn)
+            if isinstance(node, ast.Call) and isinstance(node.func, ast.Attribute) and node.func.attr == "popitem" and not node.args:
+                self.note_mutation(node.func.value, aliases)
             if isinstance(node, ast.Call) and isinstance(node.func, ast.Attribute) and node.func.attr in SET_MUTATORS:
                 tgt = dotted(node.func.value)
                 if tgt in self.env and self.env[tgt] == "set" and tgt not in self.mutated:
@@ -205,6 +404,8 @@ class FnTranslator:
                 tgt = dotted(node.targets[0].value)
                 if tgt and tgt.startswith("self.") and tgt[5:] in self.ms.self_fields:
                     self.self_mut = True
+                else:
+                    self.note_mutation(node.targets[0].value, aliases)
             if isinstance(node, (ast.Assign, ast.AnnAssign)):
                 tg0 = node.targets[0] if isinstance(node, ast.Assign) and len(node.targets) == 1 else node.target if isinstance(node, ast.AnnAssign) else None
                 tgt = dotted(tg0) if isinstance(tg0, ast.Attribute) else None
@@ -231,16 +432,35 @@ class FnTranslator:
                         pass
                     if o.may_raise:
                         self.oracles[o.may_raise] = "Nat → Bool" if o.raise_arg is not None else "Bool"
-                if d and ((d.startswith("self.") and d[5:] in self.mod.translated) or (self.ms.cls is None and d in self.mod.translated)):
-                    callee = self.mod.translated[d[5:]] if d.startswith("self.") else self.mod.translated[d]
+                if d in self.ms.methods:
+                    m = self.ms.methods[d]
+                    for vn, vt, written in m.world:
+                        self.use_world(vn, vt, written)
+                    for on, oty in m.oracles:
+                        self.oracles[on] = oty
+                    if m.mutates_recv and isinstance(node.func, ast.Attribute):
+                        self.note_mutation(node.func.value, aliases)
+                    for i in m.mutates_args:
+                        if i < len(node.args):
+                            self.note_mutation(node.args[i], aliases)
+                callee = self.callee_of(d)
+                if callee is not None:
                     # mutations / effects of a callee propagate
                     for i, (pn, _) in enumerate(callee.spec.params.items()):
-                        if pn in callee.mutated and i < len(node.args):
-                            a = dotted(node.args[i])
-                            if a in self.env and a not in self.mutated:
-                                self.mutated.append(a)
+                        if pn in callee.mutated:
+                            a_ast = node.args[i] if i < len(node.args) else next((k.value for k in node.keywords if k.arg == pn), None)
+                            if a_ast is not None:
+                                self.note_mutation(a_ast, aliases)
+                    if callee.self_mut:
+                        if d in self.ms.extern:
+                            x = self.ms.extern[d]
+                            self.note_mutation(ast.parse(x.recv, mode="eval").body if x.recv else node.func.value, aliases)  # type: ignore[attr-defined]
+                        else:
+                            self.self_mut = True
+                    if d not in self.ms.extern:
+                        self.touches |= callee.touches
+                        self.writes |= callee.writes
                     self.effects = self.effects or callee.effects
-                    self.self_mut = self.self_mut or callee.self_mut
                     self.needs_fuel = self.needs_fuel or callee.needs_fuel
                     self.oracles.update(callee.oracles)
                     for av in callee.attr_params:
@@ -257,6 +477,44 @@ class FnTranslator:
         # keep parameter order
         order = list(self.spec.params) + list(self.spec.live_in)
         self.mutated.sort(key=lambda n: order.index(n))
+
+    def use_world(self, vn: str, vt: str, written: bool) -> None:
+        """a world variable (flight store, queue heap, arrival schedule): a parameter, returned when written"""
+        if vn not in self.env:
+            self.env[vn] = vt
+            self.declared.add(vn)
+            self.attr_params.append(vn)
+        if written and vn not in self.attr_written:
+            self.attr_written.append(vn)
+
+    def note_mutation(self, tgt: ast.expr, aliases: Dict[str, ast.expr]) -> None:
+        """analysis: the object denoted by `tgt` is mutated (by a method, a callee, `del`): a parameter is returned, a field rebuilds self"""
+        d = dotted(tgt)
+        if isinstance(tgt, ast.Name) and d in aliases and d not in self.spec.params and d not in self.spec.live_in:
+            self.note_mutation(aliases[d], aliases)  # type: ignore[index]
+            return
+        if isinstance(tgt, ast.Name) and (d in self.spec.params or d in self.spec.live_in):
+            if d not in self.mutated:
+                self.mutated.append(d)  # type: ignore[arg-type]
+        elif d and d.startswith("self.") and d[5:] in self.ms.self_fields and d not in self.ms.attr_vars:
+            self.self_mut = True
+
+    def callee_of(self, d: Optional[str]) -> Optional["FnTranslator"]:
+        """the translated function a dotted call name denotes: of this module (`self.f`, or `f` in a module without class) or an extern"""
+        if not d:
+            return None
+        if d in self.ms.extern:
+            x = self.ms.extern[d]
+            if x.fn not in x.mod.translated:
+                raise Unsupported(f"extern {d}: {x.fn} was not translated")
+            return x.mod.translated[x.fn]  # type: ignore[no-any-return]
+        if d.startswith("self.") and d[5:] in self.mod.translated:
+            return self.mod.translated[d[5:]]
+        if self.ms.cls is None and d in self.mod.translated:
+            return self.mod.translated[d]
+        if self.spec.recursive and d in (f"self.{self.spec.py_name}", self.spec.py_name):
+            return None  # the function itself: handled by the recursion rule
+        return None
 
     # ---------------------------------------------------------------- signature helpers
     def ret_components(self) -> List[Tuple[str, str]]:
@@ -300,7 +558,13 @@ class FnTranslator:
             return "true"  # an object without __bool__/__len__ is truthy
         if ty == "sid":
             return f"(strTruthy {txt})"  # the empty string (id 0) is the only falsy str
+        if ty in ("queue", "float") or self.is_objty(ty):
+            return "true"  # an object without __bool__/__len__ is truthy
+        if ty in ("natlist", "qlist"):
+            return f"!({txt}).isEmpty"
         head, args = split_ty(ty)
+        if head == "dict" and args:
+            return f"(NDict.truthy {txt})"
         if head == "tuple":
             return "true"  # a pair is never empty
         if head == "opt":
@@ -321,7 +585,22 @@ class FnTranslator:
             return "[]"
         if ty == "emptydict" and wh == "opt" and split_ty(wa[0])[0] == "dict":
             return "(some [])"
+        if ty in ("nat", "uuid") and want in ("nat", "uuid"):
+            return txt  # the elements of a "set" are untyped ids
+        if ty == "unit" and txt == "()" and want == "pdata":
+            return "PData.none"
+        if ty == "set" and want == "qmsg":
+            return f"(QMsg.set {txt})"
+        if ty == "tuple[" + ",".join(["unit"] * len(wa)) + "]" and wh == "tuple" and all(split_ty(a)[0] == "opt" or a == "any" for a in wa):
+            return "(" + ", ".join(["none"] * len(wa)) + ")"  # `(None, None, None)`
         return None
+
+    def coerce_arg(self, txt: str, ty: str, want: str) -> Optional[str]:
+        """an argument of a call: `coerce`, plus the dynamic checks a callee would run into"""
+        c = self.coerce(txt, ty, want)
+        if c is None and ty == "qmsg" and want == "set":
+            return f"(← QMsg.asSet {txt})"  # a queue message used as a set (after `isinstance(m, set)`)
+        return c
 
     def deref_receiver(self, recv: str, rty: str) -> Tuple[str, str]:
         """receiver of a method call that has type `opt[T]`: `None.<attr>` raises AttributeError (`Opt.deref`)"""
@@ -359,11 +638,14 @@ class FnTranslator:
         if isinstance(e, ast.Name):
             if e.id not in self.env:
                 raise Unsupported(f"unknown name {e.id}")
-            return lname(e.id), self.env[e.id]
-        if isinstance(e, ast.Tuple) and isinstance(e.ctx, ast.Load) and len(e.elts) == 2:
-            a, aty = self.expr(e.elts[0], pre)
-            b, bty = self.expr(e.elts[1], pre)
-            return f"({a}, {b})", f"tuple[{aty},{bty}]"
+            return self.ln(e.id), self.env[e.id]
+        if isinstance(e, ast.Tuple) and isinstance(e.ctx, ast.Load) and len(e.elts) >= 2:
+            parts = [self.expr(x, pre) for x in e.elts]
+            return "(" + ", ".join(t for t, _ in parts) + ")", "tuple[" + ",".join(ty for _, ty in parts) + "]"
+        if isinstance(e, ast.SetComp):
+            return self.set_comp(e, pre)
+        if isinstance(e, ast.ListComp):
+            return self.list_comp(e, pre)
         if isinstance(e, ast.Dict) and not e.keys:
             return "[]", "emptydict"
         if isinstance(e, ast.Attribute) and dotted(e) in self.ms.attr_vars:
@@ -373,8 +655,13 @@ class FnTranslator:
             d = dotted(e)
             if d in self.ms.attrs:
                 return self.ms.attrs[d]
-            if d and d.startswith("self.") and d[5:] in self.ms.self_fields:
-                return f"self.{lname(d[5:])}", self.ms.self_fields[d[5:]]
+            sf = self.sfield(d)
+            if sf is not None:
+                return sf
+            if self.ms.obj_fields:
+                v, vty = self.expr(e.value, pre)
+                if e.attr in self.ms.obj_fields.get(vty, {}):
+                    return f"{v}.{lname(e.attr)}", self.ms.obj_fields[vty][e.attr]
             raise Unsupported(f"attribute {d}")
         if isinstance(e, ast.UnaryOp) and isinstance(e.op, ast.Not):
             t, ty = self.expr(e.operand, pre)
@@ -397,9 +684,18 @@ class FnTranslator:
                 raise Unsupported("chained comparison")
             op = e.ops[0]
             if isinstance(op, (ast.Is, ast.IsNot)):
+                if isinstance(e.comparators[0], ast.Constant) and e.comparators[0].value is True and isinstance(op, ast.Is):
+                    l, lt = self.expr(e.left, pre)
+                    if lt != "boolorset":
+                        raise Unsupported(f"`is True` on a value of type {lt}")
+                    return f"(BoolOrSet.isTrue {l})", "bool"
                 if not (isinstance(e.comparators[0], ast.Constant) and e.comparators[0].value is None):
                     raise Unsupported(f"`is` other than against None: {key}")
                 l, lt = self.expr(e.left, pre)
+                if lt == "pdata":
+                    return (f"(PData.isNone {l})" if isinstance(op, ast.Is) else f"!(PData.isNone {l})"), "bool"
+                if self.ms.narrow and lt in ("sid", "uuid", "nat", "set", "queue", "qmsg", "bool"):
+                    return ("false" if isinstance(op, ast.Is) else "true"), "bool"  # a value of a non-Optional type is not None
                 if lt != "any" and split_ty(lt)[0] != "opt":
                     raise Unsupported(f"`is None` on a value of type {lt}")
                 return (f"({l}).isNone" if isinstance(op, ast.Is) else f"({l}).isSome"), "bool"
@@ -408,9 +704,9 @@ class FnTranslator:
             if isinstance(op, (ast.In, ast.NotIn)):
                 if rt == "dict" and lt == "str":
                     t = f"PyDict.has {r} {l}"
-                elif split_ty(rt)[0] == "dict" and split_ty(rt)[1][:1] == [lt]:
+                elif split_ty(rt)[0] == "dict" and (split_ty(rt)[1][:1] == [lt] or (lt in ("nat", "uuid") and split_ty(rt)[1][:1] in (["nat"], ["uuid"]))):
                     t = f"NDict.has {r} {l}"
-                elif rt == "set":
+                elif rt == "set" or (rt == "natlist" and lt in NAT_LIKE):
                     t = f"PSet.has {r} {l}"
                 else:
                     raise Unsupported(f"`in` on {rt}")
@@ -418,7 +714,7 @@ class FnTranslator:
             if isinstance(op, (ast.Eq, ast.NotEq)):
                 if lt == "set" and rt == "set":
                     t = f"PSet.eq {l} {r}"
-                elif lt == rt and lt in ("nat", "bool", "str", "uuid", "sid"):
+                elif (lt == rt and lt in ("nat", "bool", "str", "uuid", "sid")) or ({lt, rt} == {"nat", "uuid"}):
                     t = f"{l} == {r}"
                 else:
                     raise Unsupported(f"== between {lt} and {rt}")
@@ -430,12 +726,18 @@ class FnTranslator:
         if isinstance(e, ast.Subscript):
             d, dty = self.expr(e.value, pre)
             dh, da = split_ty(dty)
-            if dh == "tuple" and isinstance(e.slice, ast.Constant) and e.slice.value in (0, 1) and not isinstance(e.slice.value, bool):
-                return f"{d}.{e.slice.value + 1}", da[e.slice.value]
+            if dh == "tuple" and isinstance(e.slice, ast.Constant) and isinstance(e.slice.value, int) and not isinstance(e.slice.value, bool) and 0 <= e.slice.value < len(da):
+                return f"{d}{tuple_proj(len(da), e.slice.value)}", da[e.slice.value]
             k, kty = self.expr(e.slice, pre)
+            if dh == "ddict" and (kty == da[0] or {kty, da[0]} == {"nat", "uuid"}):
+                # a defaultdict READ: the value, and the key is inserted (with the default) when it is missing
+                v, rest = self.fresh("v"), self.fresh("d")
+                pre.append(f"let ({v}, {rest}) := {'IDict' if da[1] == 'nat' else 'DDict'}.read {d} {k}")
+                pre.extend(self.assign_to(e.value, rest))
+                return v, da[1]
             if dty == "dict" and kty == "str":
                 return f"(← PyDict.getItem {d} {k})", "pyval"
-            if dh == "dict" and da and kty == da[0]:
+            if dh == "dict" and da and (kty == da[0] or {kty, da[0]} == {"nat", "uuid"}):
                 return f"(← NDict.getItem {d} {k})", da[1]
             raise Unsupported(f"subscript of {dty} by {kty}")
         if isinstance(e, ast.BinOp) and isinstance(e.op, ast.Add):
@@ -457,8 +759,35 @@ class FnTranslator:
 
     def call(self, e: ast.Call, pre: List[str]) -> Tuple[str, str]:
         d = dotted(e.func)
-        if e.keywords and not (d and (d.startswith("self.") and d[5:] in self.mod.translated or d in self.mod.translated)) and d not in self.ms.opaque:
+        if e.keywords and not (d and (d.startswith("self.") and d[5:] in self.mod.translated or d in self.mod.translated)) and d not in self.ms.opaque and d not in self.ms.methods and d not in self.ms.extern:
             raise Unsupported(f"keyword arguments in {ast.unparse(e)}")
+        if d in self.ms.methods:
+            return self.call_method(d, e, pre)
+        if d in self.ms.extern:
+            x = self.ms.extern[d]
+            recv_ast = ast.parse(x.recv, mode="eval").body if x.recv else e.func.value  # type: ignore[attr-defined]
+            return self.call_translated(self.callee_of(d), e, pre, recv_ast=recv_ast, qual=x.mod.namespace + ".")  # type: ignore[arg-type]
+        if self.spec.recursive and d in (f"self.{self.spec.py_name}", self.spec.py_name) and self.callee_of(d) is None:
+            return self.call_translated(self, e, pre, rec=True)
+        if d == "set" and not e.args:
+            return "[]", "set"
+        if d == "copy" and len(e.args) == 1:
+            t, ty = self.expr(e.args[0], pre)
+            if ty in ("natlist", "set"):
+                return t, ty  # a shallow copy of a list / set of ids is the same value
+            raise Unsupported(f"copy() of {ty}")
+        if isinstance(e.func, ast.Attribute) and e.func.attr == "union" and len(e.args) == 1 and d not in self.ms.methods:
+            a, aty = self.expr(e.func.value, pre)
+            b, bty = self.expr(e.args[0], pre)
+            if aty == "set" and bty == "set":
+                return f"(PSet.union {a} {b})", "set"
+            raise Unsupported(f"union on {aty},{bty}")
+        if isinstance(e.func, ast.Attribute) and e.func.attr == "copy" and not e.args and d not in self.ms.methods:
+            a, aty = self.expr(e.func.value, pre)
+            if split_ty(aty)[0] in ("dict", "ddict") or aty in ("set", "natlist"):
+                return a, aty  # dicts / sets / lists of ids are values: a shallow copy is the same value
+            raise Unsupported(f"copy() of {aty}")
+
         if d in ("all", "any") and len(e.args) == 1 and isinstance(e.args[0], ast.GeneratorExp):
             g = e.args[0]
             if len(g.generators) != 1 or g.generators[0].ifs or not isinstance(g.generators[0].target, ast.Name):
@@ -512,13 +841,32 @@ class FnTranslator:
             if ty in ("items", "strlist", "natlist"):
                 return t, ty  # list(view) of an insertion-ordered dict view is the association list itself
             raise Unsupported(f"list() of {ty}")
-        if isinstance(e.func, ast.Attribute) and e.func.attr in ("items", "keys", "get") and dotted(e.func) not in self.ms.getters and dotted(e.func) not in self.ms.opaque:
+        if isinstance(e.func, ast.Attribute) and e.func.attr in ("items", "keys", "get", "values", "popitem") and dotted(e.func) not in self.ms.getters and dotted(e.func) not in self.ms.opaque:
             recv, rty = self.expr(e.func.value, pre)
             recv, rty = self.deref_receiver(recv, rty)
             rh, ra = split_ty(rty)
+            if rh == "ddict" and e.func.attr == "items" and not e.args:
+                return recv, f"items[{ra[0]},{ra[1]}]"
             if rh == "dict" and ra:
                 if e.func.attr == "items" and not e.args:
                     return recv, f"items[{ra[0]},{ra[1]}]"
+                if e.func.attr == "values" and not e.args and ra[1] in NAT_LIKE:
+                    return f"(NDict.values {recv})", "natlist"
+                if e.func.attr == "keys" and not e.args:
+                    return f"(NDict.keys {recv})", "natlist"
+                if e.func.attr == "popitem" and not e.args:
+                    item, rest = self.fresh("item"), self.fresh("rest")
+                    pre.append(f"let ({item}, {rest}) ← NDict.popitem {recv}")
+                    pre.extend(self.assign_to(e.func.value, rest))
+                    return item, f"tuple[{ra[0]},{ra[1]}]"
+                if e.func.attr == "get" and len(e.args) == 2 and isinstance(e.args[1], ast.Tuple) and all(isinstance(x, ast.Constant) and x.value is None for x in e.args[1].elts):
+                    # `d.get(k, (None, None, None))`: every component of the result is Optional
+                    vh, va = split_ty(ra[1])
+                    k, kty = self.expr(e.args[0], pre)
+                    if vh == "tuple" and len(va) == len(e.args[1].elts) and (kty == ra[0] or {kty, ra[0]} == {"nat", "uuid"}):
+                        somes = ", ".join(f"some v{tuple_proj(len(va), i)}" for i in range(len(va)))
+                        nones = ", ".join(["none"] * len(va))
+                        return f"(match NDict.get? {recv} {k} with | some v => ({somes}) | none => ({nones}))", "tuple[" + ",".join(f"opt[{a}]" for a in va) + "]"
                 if e.func.attr == "get" and (len(e.args) == 1 or (len(e.args) == 2 and isinstance(e.args[1], ast.Constant) and e.args[1].value is None)):
                     k, kty = self.expr(e.args[0], pre)
                     if kty == ra[0]:
@@ -549,26 +897,52 @@ class FnTranslator:
         self.tmp += 1
         return f"{base}_{self.tmp}"
 
-    def call_translated(self, callee: "FnTranslator", e: ast.Call, pre: List[str]) -> Tuple[str, str]:
+    def call_translated(self, callee: "FnTranslator", e: ast.Call, pre: List[str], recv_ast: Optional[ast.expr] = None, qual: str = "", rec: bool = False) -> Tuple[str, str]:
         pnames = list(callee.spec.params)
         args: Dict[str, ast.expr] = {}
         for i, a in enumerate(e.args):
+            if i >= len(pnames):
+                raise Unsupported(f"too many arguments for {callee.spec.py_name}")
             args[pnames[i]] = a
         for kw in e.keywords:
             if kw.arg not in pnames:
                 raise Unsupported(f"keyword {kw.arg} of {callee.spec.py_name}")
             args[kw.arg] = kw.value
-        if set(args) != set(pnames):
+        defaulted: Dict[str, str] = {}
+        for pn in pnames:
+            if pn not in args and pn in callee.spec.defaults:
+                # an omitted argument: the default written in the Python signature must be the one the spec was written for
+                want_src, lean_txt = callee.spec.defaults[pn]
+                pos = [a.arg for a in callee.fdef.args.args]
+                dflts = callee.fdef.args.defaults
+                i = pos.index(pn) - (len(pos) - len(dflts))
+                if i < 0 or ast.unparse(dflts[i]) != want_src:
+                    raise Unsupported(f"default of {pn} in {callee.spec.py_name} is not `{want_src}`")
+                defaulted[pn] = lean_txt
+        if set(args) | set(defaulted) != set(pnames):
             raise Unsupported(f"call of {callee.spec.py_name} with defaulted arguments")
         texts = []
         for pn in pnames:
+            if pn in defaulted:
+                texts.append(defaulted[pn])
+                continue
             t, ty = self.expr(args[pn], pre)
             if ty != callee.spec.params[pn]:
-                raise Unsupported(f"argument {pn} of {callee.spec.py_name}: {ty} given, {callee.spec.params[pn]} expected")
+                c = self.coerce_arg(t, ty, callee.spec.params[pn]) if (recv_ast is not None or rec or self.ms.obj_fields) else None
+                if c is None:
+                    raise Unsupported(f"argument {pn} of {callee.spec.py_name}: {ty} given, {callee.spec.params[pn]} expected")
+                t = c
             texts.append(f"({t})" if " " in t else t)
-        call = callee.lean_name()
+        call = qual + callee.lean_name()
         if callee.spec.self_type:
-            call += " self"
+            if recv_ast is not None:
+                rt, rty = self.expr(recv_ast, pre)
+                rt, rty = self.deref_receiver(rt, rty)
+                if LEAN_TY[rty].split(".")[-1] != callee.spec.self_type.split(".")[-1]:
+                    raise Unsupported(f"receiver of {callee.spec.py_name}: a {rty}, {callee.spec.self_type} expected")
+                call += " " + paren(rt)
+            else:
+                call += " self"
         call += "".join(" " + t for t in texts)
         for av in callee.attr_params:
             if av not in self.env:
@@ -576,7 +950,9 @@ class FnTranslator:
             call += " " + lname(av)
         for n_, _ in callee.spec.extra_params:
             call += " " + lname(n_)
-        if callee.needs_fuel:
+        if rec:
+            call += " fuel'"
+        elif callee.needs_fuel:
             call += " fuel"
         for o in callee.oracles:
             call += " " + lname(o)
@@ -593,7 +969,10 @@ class FnTranslator:
             elif n == "self":
                 b = self.fresh("self")
                 binders.append(b)
-                rebind.append(f"self := {b}")
+                if recv_ast is not None:
+                    rebind.extend(self.assign_to(recv_ast, b))
+                else:
+                    rebind.append(f"self := {b}")
             elif n == "log":
                 b = self.fresh("log")
                 binders.append(b)
@@ -606,16 +985,25 @@ class FnTranslator:
                 # a mutated parameter of the callee: the caller's argument object is the same Python object
                 src = args[n]
                 tgt = dotted(src)
-                if tgt is None or tgt not in self.env:
-                    raise Unsupported(f"callee {callee.spec.py_name} mutates its argument {n}, which is not a plain local here: {ast.unparse(src)}")
-                b = self.fresh(tgt)
-                binders.append(b)
-                rebind.append(f"{lname(tgt)} := {b}")
+                if recv_ast is None and not rec and not self.ms.obj_fields:
+                    if tgt is None or tgt not in self.env:
+                        raise Unsupported(f"callee {callee.spec.py_name} mutates its argument {n}, which is not a plain local here: {ast.unparse(src)}")
+                    b = self.fresh(tgt)
+                    binders.append(b)
+                    rebind.append(f"{lname(tgt)} := {b}")
+                else:
+                    b = self.fresh((tgt or n).replace(".", "_"))
+                    binders.append(b)
+                    rebind.extend(self.assign_to(src, b))
         if self.try_flag is not None:
             # inside try/except Exception: an exception of the callee is caught here (effects the callee logged before raising are lost)
-            if result != "()":
+            if result != "()" and self.try_assign is None:
                 raise Unsupported(f"value of {callee.spec.py_name} used inside try/except")
             pat = "_" if not binders else binders[0] if len(binders) == 1 else "(" + ", ".join(binders) + ")"
+            if result != "()":
+                rebind.append(f"{self.try_assign} := {result}")
+                self.try_assign = None
+                result = "<assigned>"
             arms = "\n".join("  " + r for r in rebind) or "  pure ()"
             pre.append(f"match {call} with\n| .error _ =>\n  {self.try_flag} := true\n| .ok {pat} =>\n{arms}")
             return result, callee.spec.ret
@@ -627,6 +1015,142 @@ class FnTranslator:
             pre.append(f"let ({', '.join(binders)}) ← {call}")
         pre.extend(rebind)
         return result, callee.spec.ret
+
+    try_assign: Optional[str] = None  # inside try/except Exception: the local that receives the value of the call being translated
+
+    def call_method(self, d: str, e: ast.Call, pre: List[str]) -> Tuple[str, str]:
+        """a call with a fixed run-time meaning (`ModuleSpec.methods`)"""
+        m = self.ms.methods[d]
+        kws = {k.arg: k.value for k in e.keywords}
+        if set(kws) != set(m.kwargs) or any(not (isinstance(v, ast.Constant) and v.value == m.kwargs[k] and type(v.value) is type(m.kwargs[k])) for k, v in kws.items()):
+            raise Unsupported(f"keyword arguments of {ast.unparse(e)[:80]}: {m.kwargs} expected")
+        call = m.lean
+        recv_ast: Optional[ast.expr] = None
+        if m.recv is not None:
+            if not isinstance(e.func, ast.Attribute):
+                raise Unsupported(f"method {d} without receiver")
+            recv_ast = e.func.value
+            rt, rty = self.expr(recv_ast, pre)
+            rt, rty = self.deref_receiver(rt, rty)
+            if rty != m.recv:
+                raise Unsupported(f"receiver of {d}: a {rty}, {m.recv} expected")
+            recv_txt = paren(rt)
+        if len(e.args) != len(m.args):
+            raise Unsupported(f"{d}: {len(e.args)} arguments, {len(m.args)} expected")
+        arg_txts = []
+        for a, want in zip(e.args, m.args):
+            t, ty = self.expr(a, pre)
+            c = self.coerce_arg(t, ty, want)
+            if c is None:
+                raise Unsupported(f"argument of {d}: {ty} given, {want} expected")
+            arg_txts.append(paren(c))
+        # world variables lead (the heap the receiver is a handle into), then receiver, arguments, oracles
+        for vn, _, _ in m.world:
+            call += " " + lname(vn)
+        if m.recv is not None:
+            call += " " + recv_txt
+        call += "".join(" " + t for t in arg_txts)
+        for on, _ in m.oracles:
+            call += " " + lname(on)
+        binders: List[str] = []
+        rebind: List[str] = []
+        result = "()"
+        if m.ret != "unit":
+            result = self.fresh("r")
+            binders.append(result)
+        if m.mutates_recv:
+            b = self.fresh((dotted(recv_ast) or "recv").replace(".", "_"))
+            binders.append(b)
+            rebind.extend(self.assign_to(recv_ast, b))  # type: ignore[arg-type]
+        for i in m.mutates_args:
+            b = self.fresh((dotted(e.args[i]) or "arg").replace(".", "_"))
+            binders.append(b)
+            rebind.extend(self.assign_to(e.args[i], b))
+        for vn, _, written in m.world:
+            if written:
+                b = self.fresh(vn)
+                binders.append(b)
+                rebind.append(f"{lname(vn)} := {b}")
+        pat = "_" if not binders else binders[0] if len(binders) == 1 else "(" + ", ".join(binders) + ")"
+        if self.try_flag is not None and m.monadic:
+            if result != "()" and self.try_assign is None:
+                raise Unsupported(f"value of {d} used inside try/except")
+            if result != "()":
+                rebind.append(f"{self.try_assign} := {result}")
+                self.try_assign = None
+                result = "<assigned>"
+            arms = "\n".join("  " + r for r in rebind) or "  pure ()"
+            pre.append(f"match {call} with\n| .error _ =>\n  {self.try_flag} := true\n| .ok {pat} =>\n{arms}")
+            return result, m.ret
+        if not binders:
+            if m.monadic:
+                pre.append(f"let _ ← {call}")
+        else:
+            pre.append(f"let {pat} {'←' if m.monadic else ':='} {call}")
+        pre.extend(rebind)
+        return result, m.ret
+
+    def iter_of(self, it: str, ity: str) -> Tuple[str, str]:
+        """what a `for` / a comprehension iterates over: (Lean list, type of the elements)"""
+        if ity in ("set", "natlist"):
+            return it, "nat"
+        if ity == "qlist":
+            return it, "queue"
+        h, a = split_ty(ity)
+        if h == "dict" and a:
+            return f"(NDict.keys {it})", a[0]  # iterating a dict yields its keys in insertion order
+        if h == "list" and a:
+            return it, a[0]
+        raise Unsupported(f"iteration over {ity}")
+
+    def list_comp(self, e: ast.ListComp, pre: List[str]) -> Tuple[str, str]:
+        """`[f(x) for x in xs if c(x)]` as the loop it abbreviates (so the condition may read a defaultdict)"""
+        if len(e.generators) != 1 or not isinstance(e.generators[0].target, ast.Name) or e.generators[0].is_async or len(e.generators[0].ifs) > 1:
+            raise Unsupported("list comprehension with several clauses")
+        it, ity = self.expr(e.generators[0].iter, pre)
+        it, ety = self.iter_of(it, ity)
+        v = e.generators[0].target.id
+        if v in self.env:
+            raise Unsupported(f"comprehension variable {v} shadows a local")
+        acc = self.fresh("comp")
+        self.env[v] = ety
+        lines = [f"let mut {acc} : List Nat := []", f"for {lname(v)} in {it} do"]
+        inner: List[str] = []
+        cond = "true"
+        if e.generators[0].ifs:
+            c, cty = self.expr(e.generators[0].ifs[0], inner)
+            cond = self.truthy(c, cty)
+        body, bty = self.expr(e.elt, inner)
+        del self.env[v]
+        if bty not in NAT_LIKE:
+            raise Unsupported(f"list of {bty}")
+        for ln_ in inner:
+            lines.extend("  " + x for x in ln_.split("\n"))
+        lines.append(f"  if {cond} then")
+        lines.append(f"    {acc} := {acc} ++ [{body}]")
+        pre.append("\n".join(lines))
+        return acc, "natlist"
+
+    def set_comp(self, e: ast.SetComp, pre: List[str]) -> Tuple[str, str]:
+        """`{f(x) for x in xs}`: the elements in first-occurrence order"""
+        if len(e.generators) != 1 or e.generators[0].ifs or not isinstance(e.generators[0].target, ast.Name) or e.generators[0].is_async:
+            raise Unsupported("set comprehension with several clauses / conditions")
+        it, ity = self.expr(e.generators[0].iter, pre)
+        it, ety = self.iter_of(it, ity)
+        v = e.generators[0].target.id
+        saved = self.env.get(v)
+        self.env[v] = ety
+        inner: List[str] = []
+        body, bty = self.expr(e.elt, inner)
+        if saved is None:
+            del self.env[v]
+        else:
+            self.env[v] = saved
+        if inner or "←" in body:
+            raise Unsupported("effectful call inside a comprehension")
+        if bty not in NAT_LIKE:
+            raise Unsupported(f"set of {bty}")
+        return f"(PSet.ofList (List.map (fun {lname(v)} => {body}) {it}))", "set"
 
     def call_opaque(self, d: str, e: ast.Call, pre: List[str]) -> Tuple[str, str]:
         o = self.ms.opaque[d]
@@ -681,10 +1205,92 @@ class FnTranslator:
                 self.env = {k: v for k, v in self.env.items() if k in env0}
                 self.declared = {k for k in self.declared if k in declared0}
 
+    def exits(self, ss: List[ast.stmt]) -> bool:
+        """the statements never fall through to what follows them"""
+        if not ss:
+            return False
+        l = ss[-1]
+        if isinstance(l, (ast.Return, ast.Raise, ast.Continue, ast.Break)):
+            return True
+        if isinstance(l, ast.If):
+            return self.exits(l.body) and self.exits(l.orelse)
+        return False
+
+    def narrow_test(self, test: ast.expr) -> Optional[Tuple[str, str, str]]:
+        """`x is None` / `x is not None` / `x` for a local `x` of an Optional type: (x, "none" | "some" | "truthy", inner type)"""
+        if not self.ms.narrow:
+            return None
+        kind = "truthy"
+        e = test
+        if isinstance(e, ast.Compare) and len(e.ops) == 1 and isinstance(e.ops[0], (ast.Is, ast.IsNot)) and isinstance(e.comparators[0], ast.Constant) and e.comparators[0].value is None:
+            kind = "none" if isinstance(e.ops[0], ast.Is) else "some"
+            e = e.left
+        if not isinstance(e, ast.Name) or e.id not in self.env or e.id in self.rename or e.id in self.spec.params and e.id in self.mutated:
+            return None
+        h, a = split_ty(self.env[e.id])
+        if h != "opt":
+            return None
+        return e.id, kind, a[0]
+
+    def narrowed(self, n: str, inner: str, body: Callable[[], None]) -> None:
+        """run `body` with the local `n : opt[inner]` known to be `some`: inside, `n` is the (immutable) content"""
+        saved_ty = self.env[n]
+        self.env[n] = inner
+        try:
+            body()
+        finally:
+            self.env[n] = saved_ty
+            del self.rename[n]
+
+    def typed_try(self, s: ast.stmt) -> Optional[Tuple[str, ast.Assign, Method]]:
+        """`try: x = q.get(block=False); … except queue.Empty: …` - the handler's exception is the `none` of the FIRST statement's Method"""
+        if not isinstance(s, ast.Try) or len(s.handlers) != 1 or s.handlers[0].type is None or dotted(s.handlers[0].type) not in self.ms.exc_types:
+            return None
+        tag = self.ms.exc_types[dotted(s.handlers[0].type)]  # type: ignore[index]
+        if s.finalbody or s.orelse or s.handlers[0].name or not s.body:
+            raise Unsupported("try/except <type> with finally / else / `as`")
+        first = s.body[0]
+        if not (isinstance(first, ast.Assign) and len(first.targets) == 1 and isinstance(first.targets[0], ast.Name) and isinstance(first.value, ast.Call) and dotted(first.value.func) in self.ms.methods):
+            raise Unsupported(f"try/except {tag}: the first statement must be `x = <call that can raise it>`")
+        m = self.ms.methods[dotted(first.value.func)]  # type: ignore[index]
+        if m.none_is != tag:
+            raise Unsupported(f"try/except {tag}: {dotted(first.value.func)} does not raise it")
+        # nothing else in the body may raise the caught exception (state changed before such a raise would be lost)
+        for node in ast.walk(ast.Module(body=s.body[1:], type_ignores=[])):
+            if isinstance(node, ast.Call):
+                dn = dotted(node.func)
+                if (dn in self.ms.methods and self.ms.methods[dn].none_is == tag) or self.callee_of(dn) is not None or (dn in self.ms.opaque and self.ms.opaque[dn].may_raise):
+                    raise Unsupported(f"try/except {tag}: a later statement of the body may raise too: {dn}")
+            if isinstance(node, (ast.Try, ast.Raise)):
+                raise Unsupported(f"try/except {tag}: nested try / raise")
+        return tag, first, m
+
     def _block(self, stmts: List[ast.stmt], ind: int) -> None:
         if not stmts:
             self.emit(ind, "pure ()")
-        for s in stmts:
+        for i, s in enumerate(stmts):
+            tt = self.typed_try(s) if isinstance(s, ast.Try) else None
+            if tt is not None:
+                # the rest of the block goes into the `some` arm when the handler always leaves (continue / return / raise)
+                assert isinstance(s, ast.Try)
+                rest = stmts[i + 1 :] if self.exits(s.handlers[0].body) else []
+                self.stmt_typed_try(s, tt, rest, ind)
+                if rest or self.exits(s.handlers[0].body):
+                    return
+                continue
+            nt = self.narrow_test(s.test) if isinstance(s, ast.If) and not s.orelse else None
+            if nt is not None and nt[1] == "none" and self.exits(s.body) and not (self.try_flag is not None and self._in_try_body):
+                # `if x is None: raise …` - everything after it sees `x` narrowed
+                assert isinstance(s, ast.If)
+                n, _, inner = nt
+                b = self.fresh(n)
+                self.emit(ind, f"match {self.ln(n)} with")
+                self.emit(ind, "| none =>")
+                self.block(s.body, ind + 1)
+                self.emit(ind, f"| some {b} =>")
+                self.rename[n] = b
+                self.narrowed(n, inner, lambda: self.block(stmts[i + 1 :], ind + 1))
+                return
             if self.try_flag is not None and self._in_try_body:
                 # statements after a raising call inside try are skipped
                 self.emit(ind, f"if !{self.try_flag} then")
@@ -698,11 +1304,83 @@ class FnTranslator:
         d = dotted(tgt)
         if d in self.env and self.env[d] == "set":
             self.emit(ind, f"{lname(d)} := {new_value(lname(d))}")
-        elif d and d.startswith("self.") and d[5:] in self.ms.self_fields and self.ms.self_fields[d[5:]] == "set":
-            f = lname(d[5:])
-            self.emit(ind, f"self := {{ self with {f} := {new_value('self.' + f)} }}")
+        elif self.sfield(d) is not None and self.sfield(d)[1] == "set":  # type: ignore[index]
+            self.emit(ind, self.sfield_set(d, new_value(self.sfield(d)[0])))  # type: ignore[index,arg-type]
         else:
             raise Unsupported(f"mutation of {ast.unparse(tgt)}")
+
+    def check_loop_mutation(self, loop: ast.For) -> Optional[str]:
+        """Python raises RuntimeError when a dict / set changes size while it is iterated; the translation evaluates the
+        iterable once - so a body that may change the iterated container is refused"""
+        it = loop.iter
+        if isinstance(it, ast.Call) and isinstance(it.func, ast.Attribute) and it.func.attr in ("items", "keys", "values") and not it.args:
+            it = it.func.value
+        d = dotted(it)
+        if d is None:
+            return None
+        if self.sfield(d) is None and not (d in self.env and split_ty(self.env[d])[0] in ("dict", "ddict")):
+            return None
+        grows = False  # the body may insert keys by READING the iterated defaultdict: Python raises at the next step of the `for`
+        for node in ast.walk(ast.Module(body=loop.body, type_ignores=[])):
+            if isinstance(node, ast.Subscript) and isinstance(node.ctx, ast.Load) and dotted(node.value) == d:
+                ty_d = self.sfield(d)[1] if self.sfield(d) else self.env[d]  # type: ignore[index]
+                if split_ty(ty_d)[0] == "ddict":
+                    grows = True
+            tgts: List[ast.expr] = []
+            if isinstance(node, ast.Assign):
+                tgts = [t.value for t in node.targets if isinstance(t, ast.Subscript)]
+            if isinstance(node, ast.Delete):
+                tgts = [t.value for t in node.targets if isinstance(t, ast.Subscript)]
+            if isinstance(node, ast.Call) and isinstance(node.func, ast.Attribute) and node.func.attr in SET_MUTATORS | {"popitem", "pop", "setdefault"}:
+                tgts = [node.func.value]
+            if any(dotted(t) == d for t in tgts):
+                raise Unsupported(f"the loop body changes {d}, the container it iterates over")
+            if isinstance(node, ast.Call) and d.startswith("self."):
+                dn = dotted(node.func)
+                cal = self.callee_of(dn)
+                if cal is None and self.spec.recursive and dn in (f"self.{self.spec.py_name}", self.spec.py_name):
+                    cal = self
+                if cal is not None and dn not in self.ms.extern:
+                    if d in cal.writes:
+                        raise Unsupported(f"the loop body calls {dn}, which may change {d}, the container it iterates over")
+                    if d in cal.touches:
+                        grows = True
+        if not grows:
+            return None
+        for node in ast.walk(ast.Module(body=loop.body, type_ignores=[])):
+            if isinstance(node, (ast.Break, ast.Continue, ast.Return)):
+                raise Unsupported(f"break / continue / return in a loop over the defaultdict {d} that its body may grow")
+        return d
+
+    def stmt_typed_try(self, s: ast.Try, tt: Tuple[str, ast.Assign, Method], rest: List[ast.stmt], ind: int) -> None:
+        tag, first, m = tt
+        pre: List[str] = []
+        assert isinstance(first.value, ast.Call) and isinstance(first.targets[0], ast.Name)
+        got, gty = self.call_method(dotted(first.value.func), first.value, pre)  # type: ignore[arg-type]
+        self.flush(ind, pre)
+        gh, ga = split_ty(gty)
+        if gh != "opt":
+            raise Unsupported(f"try/except {tag}: the call returns a {gty}")
+        n = first.targets[0].id
+        if n in self.rename:
+            raise Unsupported(f"assignment to the narrowed local {n}")
+        b = self.fresh(n)
+        self.emit(ind, f"match {got} with")
+        self.emit(ind, "| none =>")
+        self.block(s.handlers[0].body, ind + 1)
+        self.emit(ind, f"| some {b} =>")
+        env0, declared0 = dict(self.env), set(self.declared)
+        if n in self.declared:
+            if self.env[n] != ga[0]:
+                raise Unsupported(f"{n} changes type {self.env[n]} -> {ga[0]}")
+            self.emit(ind + 1, f"{lname(n)} := {b}")
+        else:
+            self.env[n] = ga[0]
+            self.declared.add(n)
+            self.emit(ind + 1, f"let mut {lname(n)} : {LEAN_TY[ga[0]]} := {b}")
+        self._block(s.body[1:] + rest, ind + 1)
+        self.env = {k: v for k, v in self.env.items() if k in env0}
+        self.declared = {k for k in self.declared if k in declared0}
 
     def loop_var_shadows(self, loop: ast.For, names: List[str], ind: int) -> None:
         """a loop variable assigned inside the body needs a mutable shadow (the iteration itself is not affected, as in Python)"""
@@ -721,6 +1399,79 @@ class FnTranslator:
         if isinstance(s, ast.Pass):
             self.emit(ind, "pure ()")
             return
+        if isinstance(s, ast.Expr) and isinstance(s.value, ast.Yield):
+            # a generator is translated as "the list of everything it yields" (and the state after it is exhausted)
+            if s.value.value is None:
+                raise Unsupported("bare yield")
+            t, ty = self.expr(s.value.value, pre)
+            self.flush(ind, pre)
+            if f"yield[{ty}]" != self.spec.ret:
+                raise Unsupported(f"yield of {ty}, {self.spec.ret} declared")
+            self.emit(ind, f"yielded := yielded ++ [{t}]")
+            return
+        if isinstance(s, ast.Delete):
+            for tg in s.targets:
+                if not isinstance(tg, ast.Subscript):
+                    raise Unsupported(f"del {ast.unparse(tg)}")
+                dt, dty = self.expr(tg.value, pre)
+                k, kty = self.expr(tg.slice, pre)
+                dh, da = split_ty(dty)
+                if dh != "dict" or not da or not (kty == da[0] or {kty, da[0]} == {"nat", "uuid"}):
+                    raise Unsupported(f"del on {dty} by {kty}")
+                self.flush(ind, pre)
+                for ln_ in self.assign_to(tg.value, f"(← NDict.delItem {dt} {k})"):
+                    self.emit(ind, ln_)
+            return
+        if isinstance(s, ast.Expr) and isinstance(s.value, ast.Call) and isinstance(s.value.func, ast.Attribute) and s.value.func.attr in ("append", "add") and len(s.value.args) == 1 and not s.value.keywords and dotted(s.value.func) not in self.ms.methods and dotted(s.value.func) not in self.ms.opaque:
+            c = s.value
+            tgt = c.func.value  # type: ignore[attr-defined]
+            if isinstance(tgt, ast.Subscript):
+                # `d[k].append(x)` / `d[k].add(x)` on a defaultdict: the (possibly new) entry gets the grown value
+                dt, dty = self.expr(tgt.value, pre)
+                dh, da = split_ty(dty)
+                k, kty = self.expr(tgt.slice, pre)
+                x, xty = self.expr(c.args[0], pre)
+                want = {"append": "natlist", "add": "set"}[c.func.attr]  # type: ignore[attr-defined]
+                if dh == "ddict" and da[1] == want and (kty == da[0] or {kty, da[0]} == {"nat", "uuid"}) and xty in NAT_LIKE:
+                    self.flush(ind, pre)
+                    fn = "DDict.appendAt" if want == "natlist" else "DDict.addAt"
+                    for ln_ in self.assign_to(tgt.value, f"{fn} {dt} {k} {x}"):
+                        self.emit(ind, ln_)
+                    return
+                raise Unsupported(f"{ast.unparse(s)[:80]} on {dty}")
+            if c.func.attr == "append":  # type: ignore[attr-defined]
+                lt_, lty = self.expr(tgt, pre)
+                x, xty = self.expr(c.args[0], pre)
+                if lty == "natlist" and xty in NAT_LIKE:
+                    self.flush(ind, pre)
+                    for ln_ in self.assign_to(tgt, f"{lt_} ++ [{x}]"):
+                        self.emit(ind, ln_)
+                    return
+                raise Unsupported(f"append on {lty}")
+        if isinstance(s, ast.AugAssign) and isinstance(s.target, ast.Subscript) and isinstance(s.op, ast.Add):
+            dt, dty = self.expr(s.target.value, pre)
+            dh, da = split_ty(dty)
+            k, kty = self.expr(s.target.slice, pre)
+            n_, nty = self.expr(s.value, pre)
+            if dh == "ddict" and da[1] == "nat" and nty == "nat" and (kty == da[0] or {kty, da[0]} == {"nat", "uuid"}):
+                self.flush(ind, pre)
+                for ln_ in self.assign_to(s.target.value, f"IDict.incr {dt} {k} {n_}"):
+                    self.emit(ind, ln_)
+                return
+            raise Unsupported(f"augmented assignment {ast.unparse(s)}")
+        if isinstance(s, ast.AnnAssign) and isinstance(s.target, ast.Name) and s.value is not None:
+            # an annotated local: the annotation is not used, the type is the one of the value (or `local_types` for a defaultdict)
+            s = ast.copy_location(ast.Assign(targets=[s.target], value=s.value), s)
+        if isinstance(s, ast.Assign) and len(s.targets) == 1 and isinstance(s.targets[0], ast.Name) and isinstance(s.value, ast.Call) and dotted(s.value.func) == "defaultdict":
+            n = s.targets[0].id
+            ty = self.spec.local_types.get(n)
+            arg = ast.unparse(s.value.args[0]) if len(s.value.args) == 1 else "?"
+            if ty is None or split_ty(ty)[0] != "ddict" or {"int": "nat", "list": "natlist", "set": "set"}.get(arg) != split_ty(ty)[1][1] or n in self.declared:
+                raise Unsupported(f"{ast.unparse(s)[:80]} (no matching local_types entry)")
+            self.env[n] = ty
+            self.declared.add(n)
+            self.emit(ind, f"let mut {lname(n)} : {LEAN_TY[ty]} := []")
+            return
         if isinstance(s, ast.Expr) and isinstance(s.value, ast.Call):
             c = s.value
             d = dotted(c.func)
@@ -736,7 +1487,7 @@ class FnTranslator:
                 self.flush(ind, pre)
                 if m == "update" and aty == "set":
                     self.set_mut(c.func.value, lambda cur: f"PSet.update {cur} {a}", ind)
-                elif m == "add" and aty == "nat":
+                elif m == "add" and aty in ("nat", "uuid"):
                     self.set_mut(c.func.value, lambda cur: f"PSet.add {cur} {a}", ind)
                 elif m == "difference_update" and aty == "set":
                     self.set_mut(c.func.value, lambda cur: f"PSet.differenceUpdate {cur} {a}", ind)
@@ -786,11 +1537,20 @@ class FnTranslator:
                 f = lname(dd[5:])
                 self.emit(ind, f"self := {{ self with {f} := PyDict.set self.{f} {k} {v} }}")
                 return
-            fh, fa = split_ty(self.ms.self_fields.get(dd[5:], "")) if dd and dd.startswith("self.") else ("", [])
-            if fh == "dict" and fa and kty == fa[0] and self.coerce(v, vty, fa[1]) is not None:
-                f = lname(dd[5:])  # type: ignore[index]
-                self.emit(ind, f"self := {{ self with {f} := NDict.set self.{f} {k} {self.coerce(v, vty, fa[1])} }}")
+            sf = self.sfield(dd)
+            fh, fa = split_ty(sf[1]) if sf else ("", [])
+            if sf and fh in ("dict", "ddict") and fa and (kty == fa[0] or {kty, fa[0]} == {"nat", "uuid"}) and self.coerce(v, vty, fa[1]) is not None:
+                setter = "ADict.set" if split_ty(fa[0])[0] == "tuple" else "NDict.set"
+                self.emit(ind, self.sfield_set(dd, f"{setter} {sf[0]} {k} {self.coerce(v, vty, fa[1])}"))  # type: ignore[arg-type]
                 return
+            if sf is None and not isinstance(tg.value, ast.Attribute) or (sf is None and dd in self.ms.attr_vars):
+                # a dict that is a local / parameter (returned to the caller when it is a parameter) or a world variable
+                dt, dty = self.expr(tg.value, pre)
+                fh, fa = split_ty(dty)
+                if fh == "dict" and fa and (kty == fa[0] or {kty, fa[0]} == {"nat", "uuid"}) and self.coerce(v, vty, fa[1]) is not None:
+                    for ln_ in self.assign_to(tg.value, f"NDict.set {dt} {k} {self.coerce(v, vty, fa[1])}"):
+                        self.emit(ind, ln_)
+                    return
             raise Unsupported(f"item assignment {ast.unparse(s)}")
         if isinstance(s, (ast.Assign, ast.AnnAssign)) and (isinstance(s, ast.AnnAssign) or len(s.targets) == 1) and isinstance(s.targets[0] if isinstance(s, ast.Assign) else s.target, ast.Attribute):
             # `self.<field> = value` (also with an annotation, as in __init__)
@@ -804,7 +1564,7 @@ class FnTranslator:
             cv = self.coerce(v, vty, fty)
             if cv is None:
                 raise Unsupported(f"{dd} (a {fty}) assigned a {vty}")
-            self.emit(ind, f"self := {{ self with {lname(dd[5:])} := {cv} }}")
+            self.emit(ind, self.sfield_set(dd, cv))
             return
         if isinstance(s, ast.Assign) and len(s.targets) == 1 and isinstance(s.targets[0], ast.Tuple):
             # `a, b = t` for a pair t: the right side is evaluated once, then both names are bound
@@ -812,7 +1572,8 @@ class FnTranslator:
             t, ty = self.expr(s.value, pre)
             self.flush(ind, pre)
             th, ta = split_ty(ty)
-            if th != "tuple" or len(names) != 2 or None in names or names[0] == names[1]:
+            real = [n for n in names if n != "_"]
+            if th != "tuple" or len(names) != len(ta) or None in names or len(set(real)) != len(real):
                 raise Unsupported(f"unpacking {ast.unparse(s)[:80]}")
             if not isinstance(s.value, ast.Name):
                 tmp = self.fresh("pair")
@@ -820,21 +1581,38 @@ class FnTranslator:
                 t = tmp
             for i, n in enumerate(names):
                 assert n is not None
+                if n == "_":
+                    continue  # `_`: the component is not kept
+                if n in self.rename or any(n in (dotted(a), dotted(b)) for a, b in self.alias.values()):
+                    raise Unsupported(f"assignment to {n} while it is narrowed / used by a live alias")
                 if n in self.declared:
                     if self.env[n] != ta[i]:
                         raise Unsupported(f"{n} changes type {self.env[n]} -> {ta[i]}")
-                    self.emit(ind, f"{lname(n)} := {t}.{i + 1}")
+                    self.emit(ind, f"{lname(n)} := {t}{tuple_proj(len(ta), i)}")
                 else:
                     self.env[n] = ta[i]
                     self.declared.add(n)
-                    self.emit(ind, f"let mut {lname(n)} : {LEAN_TY[ta[i]]} := {t}.{i + 1}")
+                    self.emit(ind, f"let mut {lname(n)} : {LEAN_TY[ta[i]]} := {t}{tuple_proj(len(ta), i)}")
             return
         if isinstance(s, ast.Assign):
             if len(s.targets) != 1 or not isinstance(s.targets[0], ast.Name):
                 raise Unsupported(f"assignment target {ast.unparse(s)}")
             n = s.targets[0].id
+            if n in self.rename or any(n in (dotted(a), dotted(b)) for a, b in self.alias.values()):
+                raise Unsupported(f"assignment to {n} while it is narrowed / used by a live alias")
+            if self.try_flag is not None and n in self.declared and isinstance(s.value, ast.Call) and (dotted(s.value.func) in self.ms.methods or self.callee_of(dotted(s.value.func)) is not None):
+                # inside try/except Exception: the value exists only when the call did not raise
+                self.try_assign = lname(n)
+                t, ty = self.expr(s.value, pre)
+                if t != "<assigned>" or ty != self.env[n]:
+                    raise Unsupported(f"{n} = {ast.unparse(s.value)[:60]} inside try/except")
+                self.flush(ind, pre)
+                return
             t, ty = self.expr(s.value, pre)
             self.flush(ind, pre)
+            self.alias.pop(n, None)
+            if isinstance(s.value, ast.Subscript) and self.is_objty(ty) and isinstance(s.value.slice, ast.Name):
+                self.alias[n] = (s.value.value, s.value.slice)  # `n` IS the object stored in the dict
             if n in self.declared:
                 if self.env[n] != ty:
                     raise Unsupported(f"{n} changes type {self.env[n]} -> {ty}")
@@ -843,6 +1621,28 @@ class FnTranslator:
                 self.env[n] = ty
                 self.declared.add(n)
                 self.emit(ind, f"let mut {lname(n)} : {LEAN_TY[ty]} := {t}")
+            return
+        nt = self.narrow_test(s.test) if isinstance(s, ast.If) and not s.orelse else None
+        if nt is not None and nt[1] in ("some", "truthy"):
+            # `if x is not None:` / `if x:` - the body sees `x` narrowed
+            assert isinstance(s, ast.If)
+            n, kind, inner = nt
+            b = self.fresh(n)
+            self.emit(ind, f"match {self.ln(n)} with")
+            self.emit(ind, "| none =>")
+            self.emit(ind + 1, "pure ()")
+            self.emit(ind, f"| some {b} =>")
+            self.rename[n] = b
+            cond = self.truthy(b, inner) if kind == "truthy" else "true"
+
+            def body() -> None:
+                if cond == "true":
+                    self.block(s.body, ind + 1)
+                else:
+                    self.emit(ind + 1, f"if {cond} then")
+                    self.block(s.body, ind + 2)
+
+            self.narrowed(n, inner, body)
             return
         if isinstance(s, ast.If):
             t, ty = self.expr(s.test, pre)
@@ -867,6 +1667,10 @@ class FnTranslator:
                     raise Unsupported(f"loop variable {n} changes type {self.env[n]} -> {ty}")
                 self.env[n] = ty
                 self.declared.add(n)
+            grown = self.check_loop_mutation(s)
+            if grown is not None:
+                n0 = self.fresh("size")
+                self.emit(ind, f"let {n0} := ({it}).length")
             self.emit(ind, f"for ({lname(names[0])}, {lname(names[1])}) in {it} do")  # type: ignore[arg-type]
             self.loop_var_shadows(s, [n for n in names if n], ind + 1)
             self._loop_depth += 1
@@ -874,6 +1678,11 @@ class FnTranslator:
             self.block(s.body, ind + 1)
             self.while_flags.pop()
             self._loop_depth -= 1
+            if grown is not None:
+                # the `for` statement's next step notices that the dict it iterates has grown
+                cur, _ = self.expr(s.iter.func.value if isinstance(s.iter, ast.Call) else s.iter, pre)  # type: ignore[attr-defined]
+                self.emit(ind + 1, f"if ({cur}).length != {n0} then")
+                self.emit(ind + 2, 'throw (.runtimeError "dictionary changed size during iteration")')
             return
         if isinstance(s, ast.For):
             if s.orelse or not isinstance(s.target, ast.Name):
@@ -881,9 +1690,16 @@ class FnTranslator:
             it, ity = self.expr(s.iter, pre)
             self.flush(ind, pre)
             if ity not in ("set", "natlist"):
-                raise Unsupported(f"for over {ity}")
+                if not self.ms.obj_fields and not self.ms.methods:
+                    raise Unsupported(f"for over {ity}")
+                it, ety = self.iter_of(it, ity)
+            else:
+                ety = "nat"
+            self.check_loop_mutation(s)
             v = s.target.id
-            self.env[v] = "nat"
+            if v in self.rename:
+                raise Unsupported(f"loop variable {v} is flow-narrowed here")
+            self.env[v] = ety
             self.declared.add(v)
             self.emit(ind, f"for {lname(v)} in {it} do")
             self.loop_var_shadows(s, [v], ind + 1)
@@ -918,6 +1734,11 @@ class FnTranslator:
             self.emit(ind + 2, "throw .fuel")
             return
         if isinstance(s, ast.Return):
+            if self.is_gen:
+                if s.value is not None:
+                    raise Unsupported("return with a value inside a generator")
+                self.emit(ind, f"return {self.ret_tuple('yielded')}")
+                return
             if s.value is None:
                 self.emit(ind, f"return {self.ret_tuple('()')}")
                 return
@@ -971,6 +1792,9 @@ class FnTranslator:
                 self.emit(ind, f'throw (.exception "{ast.unparse(s.exc)}")')
                 return
             raise Unsupported(f"raise {ast.unparse(s)}")
+        if isinstance(s, ast.Try) and self.typed_try(s) is not None:
+            self.stmt_typed_try(s, self.typed_try(s), [], ind)  # type: ignore[arg-type]
+            return
         if isinstance(s, ast.Try):
             if s.finalbody or s.orelse or len(s.handlers) != 1 or dotted(s.handlers[0].type) != "Exception" or self.try_flag is not None:  # type: ignore[arg-type]
                 raise Unsupported("try statement other than a single, un-nested `except Exception`")
@@ -1030,8 +1854,23 @@ class FnTranslator:
             self.emit(1, "let mut self := self")
         if self.effects:
             self.emit(1, "let mut log := log")
-        for s in stmts:
-            self.stmt(s, 1)
+        if self.is_gen:
+            if split_ty(self.spec.ret)[0] != "yield":
+                raise Unsupported(f"{self.spec.py_name} is a generator; its result must be declared yield[T]")
+            self.emit(1, f"let mut yielded : {LEAN_TY[self.spec.ret]} := []")
+            self.env["yielded"] = self.spec.ret
+            self.declared.add("yielded")
+        if self.spec.recursive:
+            # RECURSION: `fuel` is the number of Python frames still available; a call at fuel 0 is a RecursionError
+            self.emit(1, "match fuel with")
+            self.emit(1, "| 0 => throw .recursion")
+            self.emit(1, "| fuel' + 1 =>")
+        bi = 2 if self.spec.recursive else 1
+        if self.ms.narrow or self.ms.exc_types:
+            self._block(stmts, bi)  # narrowing / typed try put the rest of a block into a match arm
+        else:
+            for s in stmts:
+                self.stmt(s, bi)
         # falling off the end returns None
         def ends(ss: List[ast.stmt]) -> bool:
             if not ss:
@@ -1046,9 +1885,9 @@ class FnTranslator:
             return False
 
         if not ends(stmts):
-            if self.spec.ret not in ("unit",):
+            if self.spec.ret not in ("unit",) and not self.is_gen:
                 raise Unsupported(f"{self.spec.py_name} can fall off its end but declares a {self.spec.ret} result")
-            self.emit(1, f"return {self.ret_tuple('()')}")
+            self.emit(bi, f"return {self.ret_tuple('yielded' if self.is_gen else '()')}")
         doc = f"/-- `{self.spec.py_name}`" + (f": {self.spec.doc}" if self.spec.doc else "") + " -/\n"
         head = f"def {self.lean_name()} {' '.join(params)} : Except PyExc ({self.ret_type()}) := do\n"
         return doc + head + "\n".join(self.lines) + "\n"
@@ -1074,6 +1913,7 @@ class ModuleTranslator:
         return fs[0]
 
     def run(self, namespace: str) -> str:
+        self.namespace = namespace
         out = [f"/- translated by harness/pytrans.py from {self.spec.path} (subset translator; see its docstring) -/", *[f"import {m}" for m in self.spec.imports], f"namespace {namespace}", *[f"open {o}" for o in self.spec.opens], ""]
         if self.spec.prelude:
             out.append(self.spec.prelude)
